@@ -20,6 +20,7 @@ RULE = (
     "runs of it; 1..3 input files) x shuffle/reverse x concatenate on/off x enzymes [KR], K, [DE] (str and "
     "compiled) x fresh np.random seed. Non-trivial = some target has an enzymatic peptide of length >=4 "
     "(an interior that can move); distinct = (seed,index,rep)."
+    " Descriptions may contain '>' (5'->3' exonuclease, merged deflines)."
 )
 ASSUMPTIONS = ["'any RNG state' is sampled (np.random.seed drawn per case)",
                "descriptions after the name are not part of 'name' and are not judged"]
@@ -80,7 +81,9 @@ def render(entries, rng):
     desc = bool(rng.integers(0, 2))
     lines = []
     for name, seq in entries:
-        lines.append(">" + name + (" Some protein OS=Homo sapiens GN=X" if desc else ""))
+        # descriptions may contain any printable text, including '>' (5'->3' exonuclease, merged nr deflines)
+        dtext = [" Some protein OS=Homo sapiens GN=X", " 5'->3' exonuclease OS=Homo sapiens", " kinase A >gi|222|gb|AAA1.1| kinase A"][int(rng.integers(0, 3))]
+        lines.append(">" + name + (dtext if desc else ""))
         if width and seq:
             lines += [seq[i:i + width] for i in range(0, len(seq), width)]
         elif seq:
